@@ -68,9 +68,13 @@ def run(rep, tier, rng, replay=None):
                   ("P", [tuple(x.split("=", 1)) for x in t.split(":")[1].split(",")],
                    [p.split(",") for p in t.split(":")[2].split(";")] if len(t.split(":")) > 2 and t.split(":")[2] else [])
                   for t in replay["items"]]]
+        chunks = [replay.get("src_chunk")]
     else:
         progs = gen_programs(rng, tier)
-    o_impl, n_dir, n_corr = c01.check_programs(rep, progs, "c06")
+        # every second program reads its blob / image data from a source that hands out few bytes per read
+        chunks = [[None, 1, None, 7, None, 10, None, 1000, None, 4095, None, 4097][k % 12] for k in range(len(progs))]
+    o_impl, n_dir, n_corr = c01.check_programs(rep, progs, "c06", src_chunks=chunks)
+    rep.cov["programs_with_short_reading_sources"] = sum(1 for c in chunks if c)
     res1020, res4 = set(), set()
     for items in progs:
         for it in c01.flat_items(items):
